@@ -4,9 +4,11 @@
    generator is seeded like any proposal generator; and the rows of a batched HMC draw read
    disjoint segments of the one batch stream.
    Models: Model/Seeds.v (mh_seed, gibbs_seed, nuts_seed, mh_prop_seed), Base/Rng.v
-   (seed_from_u64 = SplitMix64 seeding of Xoshiro256++).  Proofs: Proofs/Rng.v, Proofs/Sched.v. *)
+   (seed_from_u64 = SplitMix64 seeding of Xoshiro256++).  Proofs: Proofs/Rng.v, Proofs/Sched.v,
+   Proofs/RngBij.v (the generator's state transition is a bijection, so streams that start apart
+   stay apart after every number of draws). *)
 From MiniMcmc Require Import Model.Seeds Model.Sched.
-From MiniMcmc Require Import Proofs.Rng Proofs.Sched.
+From MiniMcmc Require Import Proofs.Rng Proofs.Sched Proofs.RngBij.
 Open Scope N_scope.
 
 (* (1) chain seeds are pairwise distinct, for every seed and all chain indices below 2^64 *)
@@ -44,6 +46,48 @@ Proof.
   intros s i j Hs Hi Hj.
   exact (conj (mh_acc_prop_disjoint s i j Hs Hi Hj) (mh_acc_prop_states_distinct s i j Hs Hi Hj)).
 Qed.
+
+(* (3a) one draw permutes the generator states: the transition (next_state = state after one
+   next_u64) has the explicit two-sided inverse prev_state on well-formed states, which it
+   preserves, and is therefore injective *)
+Theorem C08_transition_bijective :
+  (forall s, wf s -> wf (next_state s) /\ wf (prev_state s)) /\
+  (forall s, wf s -> prev_state (next_state s) = s) /\
+  (forall s, wf s -> next_state (prev_state s) = s) /\
+  (forall s t, wf s -> wf t -> next_state s = next_state t -> s = t).
+Proof.
+  exact (conj (fun s H => conj (wf_next_state s H) (wf_prev s H))
+        (conj prev_next (conj next_prev next_state_inj))).
+Qed.
+
+(* (3b) hence the chains' generators, which start in distinct states (2), are in distinct states
+   after every number k of draws: the random streams never synchronise *)
+Theorem C08_streams_never_synchronise : forall s i j k, s < W64 -> i < W64 -> j < W64 -> i <> j ->
+  steps k (seed_from_u64 (mh_seed s i)) <> steps k (seed_from_u64 (mh_seed s j)) /\
+  steps k (seed_from_u64 (gibbs_seed s i)) <> steps k (seed_from_u64 (gibbs_seed s j)) /\
+  steps k (seed_from_u64 (nuts_seed s i)) <> steps k (seed_from_u64 (nuts_seed s j)) /\
+  steps k (seed_from_u64 (mh_prop_seed s i)) <> steps k (seed_from_u64 (mh_prop_seed s j)).
+Proof.
+  intros s i j k Hs Hi Hj Hne.
+  destruct (C08_states_distinct s i j Hs Hi Hj Hne) as (H1 & H2 & H3 & H4).
+  repeat split; apply steps_never_merge; try apply wf_seed; assumption.
+Qed.
+
+(* (3c) nor does any acceptance generator ever reach the state of any proposal generator after the
+   same number of draws *)
+Theorem C08_acc_prop_never_synchronise : forall s i j k, s < W64 -> i < HALF -> j < HALF ->
+  steps k (seed_from_u64 (mh_seed s i)) <> steps k (seed_from_u64 (mh_prop_seed s j)).
+Proof.
+  intros s i j k Hs Hi Hj.
+  apply steps_never_merge; [apply wf_seed|apply wf_seed|].
+  exact (proj2 (C08_acc_vs_prop s i j Hs Hi Hj)).
+Qed.
+
+(* (3d) `steps` is the state sequence behind the output stream of Base/Rng.v: the j-th of k
+   successive outputs is the output function applied to the state after j transitions *)
+Theorem C08_output_is_state_function : forall j k s d, (j < k)%nat ->
+  nth j (outputs k s) d = fst (next_u64 (steps j s)).
+Proof. exact nth_output. Qed.
 
 Close Scope N_scope.
 Open Scope nat_scope.
@@ -87,8 +131,23 @@ Example C08_states_concrete :
   s0 (seed_from_u64 (mh_seed 42 0)) <> s0 (seed_from_u64 (mh_prop_seed 42 0)).
 Proof. split; vm_compute; discriminate. Qed.
 
+(* seed 42, chains 0 and 1 (42 < 2^64, 0 <> 1, 1 < 2^63): after five draws the acceptance
+   generators are in different states, and so are chain 0's acceptance and proposal generators *)
+Example C08_never_synchronise_concrete :
+  steps 5 (seed_from_u64 (mh_seed 42 0)) <> steps 5 (seed_from_u64 (mh_seed 42 1)) /\
+  steps 5 (seed_from_u64 (mh_seed 42 0)) <> steps 5 (seed_from_u64 (mh_prop_seed 42 0)) /\
+  42 < W64 /\ 1 < HALF.
+Proof.
+  split; [|split; [|split; reflexivity]];
+    intro E; apply (f_equal s0) in E; vm_compute in E; discriminate E.
+Qed.
+
 Print Assumptions C08_seeds_distinct.
 Print Assumptions C08_states_distinct.
 Print Assumptions C08_acc_vs_prop.
+Print Assumptions C08_transition_bijective.
+Print Assumptions C08_streams_never_synchronise.
+Print Assumptions C08_acc_prop_never_synchronise.
+Print Assumptions C08_output_is_state_function.
 Print Assumptions C08_hmc_rows_disjoint.
 Print Assumptions C08_hmc_rows_bijective.
